@@ -43,6 +43,23 @@ class C04(Prop):
                 if e[0] == "S" and e[1] % 3 == 0:
                     self.big.append((e[3], e[4]))
 
+        # dense maps on many qubits (long walks): the GF(2) elimination of inverse() sees 18..32 columns
+        self.huge = []
+        for n, depth, num in ((9, 60, 4), (12, 90, 3), (16, 120, 4 if self.tier != "thorough" else 12)):
+            r = self.model("MC_RotSim", "MC_RotSim_n%d.cfg" % n, name="rotsim_n%d" % n, workers=1, simulate="num=%d" % num,
+                           depth=depth, seed=self.seed + 200 + n, collect=True, timeout=1500)
+            last = None
+            for e in r.printed:
+                if e[0] != "S":
+                    continue
+                if e[1] == 1 and last is not None:
+                    self.huge.append(last)
+                last = (e[3], e[4])
+                if e[1] in (depth // 2,):
+                    self.huge.append(last)
+            if last is not None:
+                self.huge.append(last)
+
     def scenarios(self):
         thorough = self.tier == "thorough"
         rng = self.rng
@@ -86,7 +103,7 @@ class C04(Prop):
                         t["pkg"] = u["pkg"] = "py"
                     yield t
                     yield u
-        for m, minv in self.big:
+        for m, minv in self.big + self.huge:
             yield {"k": "inverse", "m": m, "exp": minv}
             yield {"k": "compose", "a": m, "b": minv}
         for n in (1, 2, 3, 4):
